@@ -91,6 +91,11 @@ CLAIMED = {
             "Generated-input search over enum colour encodings that name a real colour space (constructed, not filtered: custom white points/primaries with stated plausibility rules, gamma 1221..1e7 and non-inverted forms, all intents) and over sample values per transfer function; tolerances calibrated on the unchanged tree and frozen (listed in the evidence).",
             "Trusted: jxlref::colour_model (f64 reference curves, Bradford adaptation, ICC s15Fixed16 resolution model). Four genuine defects are recorded as known findings (PQ/HLG profiles not recognised, marginal snapping to named chromaticities, large gamma exponents); render-level identity conversion is not yet covered (stated in evidence).",
             "DESIGN.md §4 C19"),
+    "C20": ("exploration",
+            "schedule-controlled PBT: 2-3 caller threads with generated render programs on generated multi-frame images, interleaved by a token scheduler behind cfg(jxl_oxide_verif) hooks at every synchronisation point of the render-handle protocol; the schedule is a generated, shrinkable byte string; optional injected failure (bit flip / allocation fault)",
+            "Generated-input search over images with reference chains, caller programs and schedules. The harness owns the interleaving (exactly one caller runs between scheduling points), so a deadlock or lost wake-up is detected deterministically (every unfinished caller waiting), results are compared bit-for-bit with the single-threaded render, and overlapping executions of one frame's render operation are observed directly.",
+            "Trusted: the scheduler hooks (hooks_commits.txt hook2) and the substituted condition-variable wait (Condvar::wait semantics minus spurious wake-ups). Preemption only at hook points; the real notify_all call itself is not on the hooked path (C07 with real threads covers it).",
+            "DESIGN.md §4 C20"),
 }
 
 PENDING_REASON = "not claimed yet: machinery for this property is still being built in this work session (see DESIGN.md §8 build order); the technique applies"
